@@ -241,6 +241,21 @@ def unit_ctor(ctx):
         ok = list(gd.keys()) == ["vertebrae", "ivd", "sacrum"] and sorted(o.attrs["_SegmentationClassGroups__labels"]) == [1, 2, 3, 10, 11, 26]
         ok = ok and gd["sacrum"].attrs["_LabelGroup__single_instance"] is True and gd["ivd"].cls.name == "LabelMergeGroup"
     ctx.oblige("segmentation_class.SegmentationClassGroups.__init__/post(labels = union of group labels; names lower-cased; tuple -> LabelGroup)", [], z3.BoolVal(bool(ok)), func=SC + "SegmentationClassGroups.__init__")
+    # what a group was constructed with is what its accessors report (the evaluator reads label_group.single_instance / value_labels)
+    for cls_name, labels in (("LabelGroup", [7]), ("LabelMergeGroup", [7]), ("LabelGroup", [1, 2]), ("LabelMergeGroup", [1, 2])):
+        for flag in (False, True):
+            if flag and len(labels) > 1:
+                continue
+            def mk3(e, cls_name=cls_name, labels=labels, flag=flag):
+                return [], {}
+
+            def t3(cls_name=cls_name, labels=labels, flag=flag):
+                g = eng.call(eng.resolve(LG + cls_name), [list(labels)], {"single_instance": flag})
+                return eng.getattr(g, "single_instance"), list(eng.getattr(g, "value_labels"))
+            ps = eng.run(t3, mk3)
+            ok3 = len(ps) == 1 and ps[0].kind == "return" and ps[0].value[0] is flag and sorted(ps[0].value[1]) == sorted(labels)
+            ctx.oblige(f"label_group.{cls_name}.__init__[labels={labels}, single_instance={flag}]/post(the accessors report the constructor arguments)", [], z3.BoolVal(bool(ok3)),
+                       func=LG + cls_name + ".__init__", replay="c12.ctor", info={"structural": True})
     for bad, why in (([], "empty"), ([0, 1], "non-positive"), ([1, 2], "single-instance with two labels")):
         def mk2(e, bad=bad, why=why):
             return [bad], {"single_instance": why.startswith("single")}
@@ -260,4 +275,6 @@ def build(ctx):
 
 
 def concretise(ctx, o, r):
+    if o.replay == "c12.ctor":
+        return {}
     return {"obligation": o.name, "info": {k: v for k, v in o.info.items() if k in ("kind", "input_type", "grouped")}}
